@@ -745,7 +745,13 @@ func c12RealMixed(e *env) error {
 			}
 			var im *sx.Node
 			if errs[i] != nil {
-				im = lineErrToSx(errs[i], "-", "-")
+				// the location a converter-level line error names: the converter itself (package path + interface name), or
+				// the file for a variables block
+				convLoc := raw.PackagePath + "." + raw.InterfaceName
+				if vars {
+					convLoc = "var definition"
+				}
+				im = lineErrToSx(errs[i], convLoc, "-")
 			} else if len(convs[i].Methods) == 1 {
 				im = sx.H("ok", commonToSx(&convs[i].Methods[0].Common))
 			} else {
